@@ -45,13 +45,19 @@ class DumpParser:
         # Default values
         start_address: int = 0
         end_address: int = 0
+        dump_parsed_data: DumpParsingData = {
+            "start_address": 0,
+            "ret_address": 0,
+            "end_address": 0,
+        }
         try:
             # Extract info
-            dump_parsed_data: DumpParsingData = self.extract_from_dump(dump_file)
+            dump_parsed_data = self.extract_from_dump(dump_file)
             dump_ok = 1
         except (
             MissingAddressException,
             EnvironmentError,
+            ValueError,
         ) as err:
             # If missing info in the dump trigger flag
             logger.error(err)
@@ -125,9 +131,17 @@ class LogParser:
         # Tracing data
         instrs_class: InstrClassData = default_instr_class_data()
         instrs_type: InstrTypeData = default_instr_type_data()
+        # Default values
+        executed_instructions: List[str] = []
+        rocket_parsed_data: LogParsingData = {
+            "sim_seed": 0,
+            "start_cycle": 0,
+            "end_cycle": 0,
+            "executed_instrs": [],
+        }
         try:
             # Extract info
-            rocket_parsed_data: LogParsingData = self.extract_from_core_log(
+            rocket_parsed_data = self.extract_from_core_log(
                 start_address=start_address,
                 ret_address=ret_address,
                 core_log_file=log_file,
@@ -136,13 +150,17 @@ class LogParser:
         except (
             MissingCycleException,
             EnvironmentError,
+            ValueError,
         ) as err:
             # If missing info in the logs trigger flag
             logger.error(err)
             emulation_ok = 0
 
-        if emulation_ok == 1:
-            executed_instructions: List[str] = rocket_parsed_data["executed_instrs"]
+        logged_instructions: List[str] = rocket_parsed_data["executed_instrs"]
+        if emulation_ok == 1 and all(
+            instr in instructions_info for instr in logged_instructions
+        ):
+            executed_instructions = logged_instructions
             # Instr type
             executed_instrs_type: List[str] = [
                 instructions_info[instr].instr_type for instr in executed_instructions
